@@ -4,7 +4,7 @@ from __future__ import annotations
 import ast
 
 from ..model import CFG
-from . import names
+from . import names, counters
 from .common import site_of
 from .flow import (Oblig, calls, events, deps_of, arg_deps, SELF, P, is_worklist_closure, result_locs)
 
@@ -132,6 +132,9 @@ def run(eng, rep, tier):
               "a path of to_normal_form returns a grammar different from the one it caches (or caches nothing)", summ,
               site=((bad or (unstored[0] if unstored else None)).site.to_json() if (bad or unstored) else None))
     nf = prog.method("CFG", "is_normal_form")
+    # -------------------------------------------------------------- C09.6 one counter per production
+    counters.check_setup(ob, prog, prog.method("CFG", "_set_impacts_and_remaining_lists"), "C09.6")
+    counters.check_consumer(ob, prog, prog.method("CFG", "_get_generating_or_nullable"), "C09.6")
     names.check(eng, rep, "C09")
     rep.stats.update(eng.stats())
     rep.floor = 14
